@@ -72,8 +72,13 @@ def rule_keywords(facts, rep):
     # words: split_whitespace(s), lower-cased
     rep.check(hir.is_call(hir.simp(it), "split_whitespace") and hir.is_local(hir.simp(it)["args"][0], b["params"][0]["name"]), "keywords", b["path"],
               "words-by-split_whitespace", "any whitespace separates words", loc(b))
-    sc = hir.simp(m["scrut"])
-    inner = hir.simp(sc["args"][0]) if sc.get("k") == "call" and sc["args"] else {}
+    # the scrutinee is word.to_lowercase() viewed as a &str (as_ref / as_str / deref), held in a temporary or not
+    R = hir.Resolver(b["hir"])
+    sc = hir.peel(R.res(hir.peel(m["scrut"])))
+    inner = sc
+    for _ in range(3):
+        if inner.get("k") == "call" and inner.get("args") and hir.callee(inner).split("::")[-1] in ("as_ref", "as_str", "deref", "borrow"):
+            inner = hir.peel(R.res(hir.peel(inner["args"][0])))
     rep.check(hir.is_call(inner, "to_lowercase") and hir.is_local(inner["args"][0], pat.get("name")), "keywords", b["path"], "matched-lower-cased",
               "keywords and colour names are matched on word.to_lowercase() (any letter case)", loc(b, m))
     got = {}
@@ -152,46 +157,83 @@ def rule_slots(facts, rep):
     word = pat.get("name")
     default = [a for a in m["arms"] if str_pats(a["pat"]) is None][0]
     w = default["pat"]["name"]
-    e = ac.single_expr(default["body"])
-    ok = e.get("k") == "if" and "e" in e
-    c = hir.simp(e["c"]) if ok else {}
-    ok = ok and c.get("k") == "letexpr" and hir.last_seg(hir.pat_path(c["pat"])) == "Ok" and hir.is_call(hir.simp(c["init"]), G + "parse_color") \
-        and hir.is_local(hir.simp(c["init"])["args"][0], w)
-    rep.check(ok, "slots", b["path"], "colour-iff-parse_color-Ok", "", loc(b, default))
-    color = c["pat"]["pats"][0].get("name") if ok else None
-    cm = ac.single_expr(e["t"]) if ok else {}
+    # the fallback arm, decided case by case (parse_color Ok / Err  x  number of colours seen so far 0 / 1 / 2) on the one
+    # structural path feasible for the case — `if let .. else`, `match` with an early return, an increment shared by two arms ...
+    paths = hir.enumerate_paths(default["body"])
+    O = hir.Origins(default["body"])
+    pcs = [n for n in hir.walk(default["body"]) if hir.is_call(n, G + "parse_color")]
+    ok_pc = len(pcs) == 1 and hir.is_local(pcs[0]["args"][0], w)
+    rep.check(ok_pc, "slots", b["path"], "colour-iff-parse_color-Ok", "", loc(b, default))
     slots = {}
-    if cm.get("k") == "match" and hir.is_local(cm["scrut"], "num_colors"):
-        for a in cm["arms"]:
-            ints = hir.pat_ints(a["pat"])
-            st = [hir.simp(x) for x in hir.stmts_of(a["body"])]
-            if ints is not None:
-                setter = None
-                if len(st) == 2 and st[0].get("k") == "assign" and hir.is_local(st[0]["l"], "style"):
-                    r = hir.simp(st[0]["r"])
-                    if r.get("k") == "call" and hir.is_local(r["args"][0], "style") and hir.is_local(r["args"][1], color):
-                        setter = hir.callee(r).split("::")[-1]
-                inc = st[1].get("k") == "assignop" and st[1]["op"] == "AddAssign" and hir.is_local(st[1]["l"], "num_colors") and hir.lit_val(st[1]["r"]) == 1 if len(st) == 2 else False
-                for i in ints:
-                    slots[i] = (setter, inc)
-            else:
-                slots["_"] = error_payload(st[-1] if st else {}, b, word)
-    rep.check(slots.get(0) == ("fg_color", True), "slots", b["path"], "first-colour→fg", f"{slots.get(0)}", loc(b, default))
-    rep.check(slots.get(1) == ("bg_color", True), "slots", b["path"], "second-colour→bg", f"{slots.get(1)}", loc(b, default))
-    rep.check(slots.get("_") == ("ExtraColor", True, True), "slots", b["path"], "third-colour→ExtraColor{original-word}",
-              f"(variant, style=s, word=original word): {slots.get('_')}", loc(b, default))
-    un = error_payload(hir.simp(hir.stmts_of(e["e"])[-1]) if ok else {}, b, word)
-    rep.check(un == ("UnknownWord", True, True), "slots", b["path"], "non-colour→UnknownWord{original-word}", f"{un}", loc(b, default))
+    un = None
+    for res in ("Ok", "Err"):
+        for n_seen in (0, 1, 2):
+            def val(e, res=res, n_seen=n_seen):
+                e = hir.simp(e)
+                if ok_pc and e is pcs[0]:
+                    return ("enum", "core::result::Result::" + res)
+                if e.get("k") == "local" and e["name"] == "num_colors":
+                    return ("int", n_seen)
+                if e.get("k") == "lit" and e.get("t") == "int":
+                    return ("int", e["v"])
+                return None
+            feas = [p for p in paths if hir.path_feasible(p, val)]
+            if len(feas) != 1:
+                slots[(res, n_seen)] = f"{len(feas)} paths"
+                continue
+            p = feas[0]
+            setters, incs, ret = [], 0, None
+            for t in p.trace:
+                if t[0] == "assign":
+                    n = t[1]
+                    if n.get("k") == "assign" and hir.is_local(n["l"], "style"):
+                        r = hir.simp(n["r"])
+                        if r.get("k") == "call" and hir.is_local(r["args"][0], "style"):
+                            src, proj = O.of(r["args"][1])
+                            setters.append((hir.callee(r).split("::")[-1], ok_pc and src is pcs[0] and proj == ("Ok",)))
+                        else:
+                            setters.append(("?", False))
+                    elif n.get("k") == "assignop" and n["op"] == "AddAssign" and hir.is_local(n["l"], "num_colors") and hir.lit_val(n["r"]) == 1:
+                        incs += 1
+                    else:
+                        setters.append(("store:" + hirpp.expr(n)[:30], False))
+            if p.exit == "ret":
+                ret = error_payload({"k": "ret", "e": p.value}, b, word) if p.value is not None else None
+            slots[(res, n_seen)] = (setters, incs, p.exit, ret)
+    fg = slots.get(("Ok", 0))
+    bg = slots.get(("Ok", 1))
+    ex = slots.get(("Ok", 2))
+    rep.check(isinstance(fg, tuple) and fg[0] == [("fg_color", True)] and fg[1] == 1 and fg[2] != "ret", "slots", b["path"], "first-colour→fg", f"{fg}", loc(b, default))
+    rep.check(isinstance(bg, tuple) and bg[0] == [("bg_color", True)] and bg[1] == 1 and bg[2] != "ret", "slots", b["path"], "second-colour→bg", f"{bg}", loc(b, default))
+    rep.check(isinstance(ex, tuple) and ex[2] == "ret" and ex[3] == ("ExtraColor", True, True) and not ex[0], "slots", b["path"], "third-colour→ExtraColor{original-word}",
+              f"(variant, style=s, word=original word): {ex}", loc(b, default))
+    uns = [slots.get(("Err", k)) for k in (0, 1, 2)]
+    rep.check(all(isinstance(u, tuple) and u[2] == "ret" and u[3] == ("UnknownWord", True, True) and not u[0] and not u[1] for u in uns), "slots", b["path"],
+              "non-colour→UnknownWord{original-word}", f"{uns[0]}", loc(b, default))
     lets = {s["pat"]["name"]: s["init"] for s in hir.stmts_of(b["hir"]) if s.get("k") == "let" and s["pat"].get("k") == "pbind"}
     rep.check(hir.lit_val(lets.get("num_colors")) == 0 and hir.is_call(hir.simp(lets.get("effects", {})), "anstyle::effect::Effects::new")
               and hir.is_call(hir.simp(lets.get("style", {})), "anstyle::style::Style::new"), "slots", b["path"], "starts-empty", "", loc(b))
     top = hir.stmts_of(b["hir"])
-    ok = len(top) >= 2 and hir.simp(top[-2]).get("k") == "assignop" and hir.simp(top[-2])["op"] == "BitOrAssign" and hir.is_local(hir.simp(top[-2])["l"], "style") \
-        and hir.is_local(hir.simp(top[-2])["r"], "effects") and hir.simp(top[-1]).get("ctor", "").endswith("Result::Ok") and hir.is_local(hir.simp(top[-1])["args"][0], "style")
+    # after the loop: the result is Ok(style | effects) — as `style |= effects; Ok(style)` or in one expression
+    last = hir.simp(top[-1]) if top else {}
+    ok = False
+    if last.get("ctor", "").endswith("Result::Ok"):
+        v = hir.simp(last["args"][0])
+        prev = hir.simp(top[-2]) if len(top) >= 2 else {}
+        if hir.is_local(v, "style") and v.get("k") == "local":
+            ok = prev.get("k") == "assignop" and prev["op"] == "BitOrAssign" and hir.is_local(prev["l"], "style") and hir.is_local(prev["r"], "effects")
+        elif (v.get("k") == "bin" and v.get("op") == "BitOr") or hir.is_call(v, "bitor"):
+            l, r = (v["l"], v["r"]) if v.get("k") == "bin" else (v["args"][0], v["args"][1])
+            ok = hir.is_local(l, "style") and hir.is_local(r, "effects")
+        # no other merge of the effects into the style inside the loop
+        merges = [n for n in hir.walk(b["hir"]) if n.get("k") == "assignop" and hir.is_local(n["l"], "style") and n is not prev]
+        ok = ok and not merges
     rep.check(ok, "slots", b["path"], "effects-ORed-once-after-the-loop", "attributes are a set built sequentially (a later negation wins), merged at the end", loc(b))
     # num_colors / effects only written where seen above
-    writers = [hir.local_name(n["l"]) for n in hir.walk(b["hir"]) if n.get("k") in ("assign", "assignop") and hir.local_name(n["l"]) in ("num_colors",)]
-    rep.check(len(writers) == 2, "slots", b["path"], "counter-incremented-only-on-accepted-colours", f"{len(writers)} writes", loc(b))
+    inside = {id(n) for n in hir.walk(default["body"])}
+    writers = [n for n in hir.walk(b["hir"]) if n.get("k") in ("assign", "assignop") and hir.local_name(n["l"]) in ("num_colors",) and id(n) not in inside]
+    rep.check(not writers, "slots", b["path"], "counter-incremented-only-on-accepted-colours",
+              f"{len(writers)} writes of num_colors outside the colour arm (inside it: exactly one increment per accepted colour, decided above)", loc(b))
 
 
 def error_payload(stmt, b, word):
